@@ -13,12 +13,17 @@
   * a fragment is `(style, text[, mouse_handler])`; the optional handler is an opaque id.
   * the coroutine `_parse_corot` is an explicit state machine: `Mode` is the `yield` the coroutine
     is suspended at, `step` consumes one character and returns the fragments appended to
-    `_formatted_text` by that character.
+    `_formatted_text` by that character.  `int(current or 0)` is total on ASCII digits except for
+    CPython's int-string-conversion limit: `runFails` / `ansiE` say where the code as it is raises.
   * the SGR code tables (`_fg_colors`, `_bg_colors`, `_256_colors`) are a parameter `Tables`
     (regenerated from /repo into `Ptk/Gen/C18.lean`; the theorems hold for every table).
-  * `wcwidth` (runtime) is a parameter `cw`.
+  * `wcwidth` and `str.isprintable` (runtime) are parameters `cw`, `pr`.
   * `string.Formatter.vformat` / `str.__mod__` (CPython) are modelled by scanners for the sub-grammar
-    documented at `scanFormat` / `scanPercent`; everything else is `none` (= not modelled).
+    documented at `scanFormat` / `scanPercent` (automatic, numbered and keyword fields, `!r !s !a`,
+    `[[fill]align][width][.prec][s]`); everything else is `none` / `Err.unsupported` (= not modelled).
+    A value is what `str()` / `repr()` / `format()` can see of it (`Val`).
+  * sessions (several calls in one process), `_ExplodedList` mutators, `to_formatted_text` with
+    `auto_convert`, `PygmentsTokens`: Model/C18Sess.lean, Model/C18Expl.lean.
 -/
 import Ptk.Py
 set_option linter.unusedVariables false
@@ -328,6 +333,40 @@ def run (tb : Tables) : St → Text → St × Frags
 /-- `ANSI(value).__pt_formatted_text__()` -/
 def ansi (tb : Tables) (value : Text) : Frags := (run tb {} value).2
 
+/-! #### `int(current or 0)` and CPython's int-string-conversion limit
+
+`int(s)` raises ValueError when `s` has more than `sys.get_int_max_str_digits()` digits (4300 by
+default; 0 = no limit).  `step` above is the parser wherever `int` returns; `runFails` says where,
+as the code is now, it does not. -/
+
+/-- `int(current)` raises: more digits than the limit (`none` = no limit) -/
+def intFails (limit : Option Nat) (current : Text) : Bool :=
+  match limit with
+  | some l => decide (current.length > l)
+  | none => false
+
+/-- this `parser.send(c)` evaluates `int(current or 0)` on a string over the limit -/
+def stepFails (limit : Option Nat) (s : St) (c : Char) : Bool :=
+  match s.mode with
+  | .csi current _ => !isAsciiDigit c && intFails limit current
+  | _ => false
+
+def runFails (limit : Option Nat) (tb : Tables) : St → Text → Bool
+  | _, [] => false
+  | s, c :: cs => stepFails limit s c || runFails limit tb (step tb s c).1 cs
+
+inductive AnsiErr | value
+deriving Repr, DecidableEq
+
+/-- `ANSI(value).__pt_formatted_text__()` as the code is now: ValueError when a control-sequence
+    parameter is longer than the interpreter's limit -/
+def ansiE (limit : Option Nat) (tb : Tables) (value : Text) : Except AnsiErr Frags :=
+  if runFails limit tb {} value then .error .value else .ok (ansi tb value)
+
+/-- the parameter value as the PROPOSED FIX computes it
+    (`min(int(current.lstrip("0")[:5] or 0), 9999)`): `int` sees at most five digits -/
+def clampParam (current : Text) : Nat := min (digitsToNat ((lstripChar '0' current).take 5)) 9999
+
 /-- `ansi_escape(text)` for a `str` -/
 def ansiEscape (t : Text) : Text :=
   t.map fun c => if c = ESC ∨ c = CSI8 ∨ c = SOH ∨ c = STX ∨ c = BS then '?' else c
@@ -366,12 +405,45 @@ structure Spec where
   prec : Option Nat := none
 deriving Repr, DecidableEq
 
-inductive Err | index | value | type
+/-- `unsupported` = the call leaves the modelled part of CPython (never generated by the harness) -/
+inductive Err | index | value | type | key | unsupported
+deriving Repr, DecidableEq
+
+/-- which argument a replacement field names: `{}` / `{3}` / `{name}` -/
+inductive Arg
+  | auto
+  | pos (n : Nat)
+  | kw (name : Text)
+deriving Repr, DecidableEq
+
+/-- `!s` `!r` `!a` -/
+inductive Conv | none | s | r | a
+deriving Repr, DecidableEq
+
+structure Hole where
+  arg : Arg := .auto
+  conv : Conv := .none
+  spec : Spec := {}
+  /-- the text after `:` is empty (then `format(v, "")` is `str(v)` for every `v`) -/
+  specEmpty : Bool := true
 deriving Repr, DecidableEq
 
 inductive Item
   | lit (t : Text)
-  | hole (idx : Option Nat) (spec : Spec)
+  | hole (h : Hole)
+deriving Repr, DecidableEq
+
+/-- a Python value as far as `format` / `str` / `repr` can see it.  `s` = `str(v)`;
+    `r` = `repr(v)` for values that are not `str` (for a `str` the model computes the repr itself);
+    kind `plain` = a type that inherits `object.__format__` (None, list, a user class),
+    kind `num` = a number (own format-spec language: only the empty spec is modelled). -/
+inductive VKind | str | plain | num
+deriving Repr, DecidableEq
+
+structure Val where
+  kind : VKind := .str
+  s : Text
+  r : Text := []
 deriving Repr, DecidableEq
 
 def isAlignTok (c : Char) : Option Align :=
@@ -429,19 +501,53 @@ def pushLit (c : Char) : List Item → List Item
   | .lit t :: rest => .lit (c :: t) :: rest
   | items => .lit [c] :: items
 
-/-- the replacement field between `{` and `}`: `[digits][:spec]` -/
-def scanFieldBody (f : Text) : Option Item :=
-  let (d, r) := spanDigits f
-  let idx := if d.isEmpty then none else some (digitsToNat d)
-  match r with
-  | [] => some (.hole idx {})
-  | ':' :: sp => (scanSpec sp).map fun s => .hole idx s
+def isIdentStart (c : Char) : Bool := c.isAlpha || c == '_'
+def isIdentChar (c : Char) : Bool := c.isAlphanum || c == '_'
+
+/-- the `arg_name` of a replacement field: empty, ASCII digits (at most 9: larger numbers can hit
+    CPython's "too many decimal digits" error), or an ASCII identifier; attribute / index lookups
+    (`a.b`, `a[0]`) and every other name are not modelled -/
+def scanArg (a : Text) : Option Arg :=
+  match a with
+  | [] => some .auto
+  | c :: cs =>
+    if a.all isAsciiDigit then (if a.length ≤ 9 then some (.pos (digitsToNat a)) else none)
+    else if isIdentStart c && cs.all isIdentChar then some (.kw a)
+    else none
+
+/-- the part of a field before the first `!` or `:` and the rest -/
+def spanArgName : Text → Text × Text
+  | [] => ([], [])
+  | c :: cs =>
+    if c = '!' ∨ c = ':' then ([], c :: cs)
+    else (c :: (spanArgName cs).1, (spanArgName cs).2)
+
+def scanConv (c : Char) : Option Conv :=
+  if c = 'r' then some .r else if c = 's' then some .s else if c = 'a' then some .a else none
+
+/-- `[:spec]` at the end of a field -/
+def scanFieldSpec (arg : Arg) (conv : Conv) : Text → Option Item
+  | [] => some (.hole { arg, conv })
+  | ':' :: sp => (scanSpec sp).map fun s => .hole { arg, conv, spec := s, specEmpty := sp.isEmpty }
   | _ => none
 
+/-- the replacement field between `{` and `}`: `[arg_name][!conv][:spec]` -/
+def scanFieldBody (f : Text) : Option Item :=
+  match scanArg (spanArgName f).1 with
+  | none => none
+  | some arg =>
+    match (spanArgName f).2 with
+    | '!' :: c :: rest =>
+      match scanConv c with
+      | some cv => scanFieldSpec arg cv rest
+      | none => none
+    | '!' :: [] => none
+    | rest => scanFieldSpec arg .none rest
+
 /-- `string.Formatter.parse(format_string)` on the sub-grammar
-    literal | `{{` | `}}` | `{` [digits] [`:` spec] `}` ;
-    `none` = not modelled (single braces, conversions, nested or keyword fields).
-    `fuel` bounds the number of iterations (each consumes at least one character). -/
+    literal | `{{` | `}}` | `{` [digits | identifier] [`!` (`r`|`s`|`a`)] [`:` spec] `}` ;
+    `none` = not modelled (single braces, nested fields, attribute / index lookups, other
+    conversions).  `fuel` bounds the number of iterations (each consumes at least one character). -/
 def scanFormatGo : Nat → Text → Option (Except Err (List Item))
   | 0, _ => none
   | _ + 1, [] => some (.ok [])
@@ -483,39 +589,116 @@ def fmtStr (v : Text) (s : Spec) : Text :=
     | .center => pad / 2
   List.replicate l s.fill ++ v ++ List.replicate (pad - l) s.fill
 
-/-- field numbering of `Formatter._vformat`: the state is `none` before the first field,
-    `some (some k)` = automatic with next index k, `some none` = manual.  Returns the argument
-    index and the new state; ValueError when switching between the two. -/
-def selectArg : Option Nat → Option (Option Nat) → Except Err (Nat × Option (Option Nat))
-  | none, some none => .error .value          -- manual → automatic
-  | none, some (some k) => .ok (k, some (some (k + 1)))
-  | none, none => .ok (0, some (some 1))
-  | some _, some (some _) => .error .value    -- automatic → manual
-  | some i, _ => .ok (i, some none)
+/-- lower-case hexadecimal, zero-padded to `w` digits (`"%0wx"`) -/
+def hexPad (w n : Nat) : Text :=
+  let d := Nat.toDigits 16 n
+  List.replicate (w - d.length) '0' ++ d
 
-/-- `Formatter._vformat` -/
-def renderFormat (esc : Text → Text) (args : List Text) :
+/-- `\xNN` / `\uNNNN` / `\UNNNNNNNN` -/
+def hexEscape (c : Char) : Text :=
+  if c.toNat ≤ 0xff then '\\' :: 'x' :: hexPad 2 c.toNat
+  else if c.toNat ≤ 0xffff then '\\' :: 'u' :: hexPad 4 c.toNat
+  else '\\' :: 'U' :: hexPad 8 c.toNat
+
+/-- one character of `repr(str)` (CPython `unicode_repr`); `pr` = `str.isprintable` of the running
+    interpreter (a parameter; the driver instantiates it with a generated table) -/
+def reprChar (pr : Char → Bool) (quote : Char) (c : Char) : Text :=
+  if c = quote ∨ c = '\\' then ['\\', c]
+  else if c = '\t' then ['\\', 't']
+  else if c = '\n' then ['\\', 'n']
+  else if c = '\r' then ['\\', 'r']
+  else if c.toNat < 0x20 ∨ c.toNat = 0x7f then hexEscape c
+  else if c.toNat < 0x7f then [c]
+  else if pr c then [c]
+  else hexEscape c
+
+/-- `repr(t)` for a `str`: double quotes only when the text has an apostrophe and no double quote -/
+def pyRepr (pr : Char → Bool) (t : Text) : Text :=
+  let quote : Char := if t.contains '\'' && !t.contains '"' then '"' else '\''
+  quote :: (t.flatMap (reprChar pr quote) ++ [quote])
+
+/-- `ascii(x)` from `repr(x)`: every non-ASCII character escaped -/
+def asciiEscape (t : Text) : Text := t.flatMap fun c => if c.toNat < 0x80 then [c] else hexEscape c
+
+def reprOf (pr : Char → Bool) (v : Val) : Text :=
+  match v.kind with
+  | .str => pyRepr pr v.s
+  | _ => v.r
+
+/-- `Formatter.convert_field(value, conversion)` -/
+def convert (pr : Char → Bool) (v : Val) : Conv → Val
+  | .none => v
+  | .s => { kind := .str, s := v.s }
+  | .r => { kind := .str, s := reprOf pr v }
+  | .a => { kind := .str, s := asciiEscape (reprOf pr v) }
+
+/-- `format(value, format_spec)` -/
+def fmtVal (v : Val) (h : Hole) : Except Err Text :=
+  match v.kind with
+  | .str => .ok (fmtStr v.s h.spec)
+  | .plain => if h.specEmpty then .ok v.s else .error .type      -- object.__format__
+  | .num => if h.specEmpty then .ok v.s else .error .unsupported
+
+/-- field numbering of `Formatter._vformat`: the state is `none` before the first numbered field,
+    `some (some k)` = automatic with next index k, `some none` = manual.  Returns the resolved
+    argument (never `auto`) and the new state; ValueError when switching between the two.
+    Keyword fields leave the numbering alone. -/
+def selectArg : Arg → Option (Option Nat) → Except Err (Arg × Option (Option Nat))
+  | .kw n, st => .ok (.kw n, st)
+  | .auto, some none => .error .value          -- manual → automatic
+  | .auto, some (some k) => .ok (.pos k, some (some (k + 1)))
+  | .auto, none => .ok (.pos 0, some (some 1))
+  | .pos _, some (some _) => .error .value     -- automatic → manual
+  | .pos i, _ => .ok (.pos i, some none)
+
+def lookupKw (kw : List (Text × Val)) (n : Text) : Option Val := (kw.find? fun p => p.1 == n).map (·.2)
+
+/-- `Formatter.get_value(key, args, kwargs)` -/
+def getValue (args : List Val) (kw : List (Text × Val)) : Arg → Except Err Val
+  | .pos i => match args[i]? with
+    | some v => .ok v
+    | none => .error .index
+  | .kw n => match lookupKw kw n with
+    | some v => .ok v
+    | none => .error .key
+  | .auto => .error .unsupported     -- unreachable: `selectArg` never returns `auto`
+
+/-- one replacement field: numbering, lookup, conversion, `format_field = esc ∘ format` -/
+def renderHole (esc : Text → Text) (pr : Char → Bool) (args : List Val) (kw : List (Text × Val))
+    (st : Option (Option Nat)) (h : Hole) : Except Err (Text × Option (Option Nat)) :=
+  match selectArg h.arg st with
+  | .error e => .error e
+  | .ok (key, st') =>
+    match getValue args kw key with
+    | .error e => .error e
+    | .ok v =>
+      match fmtVal (convert pr v h.conv) h with
+      | .error e => .error e
+      | .ok t => .ok (esc t, st')
+
+/-- `Formatter._vformat` (fields left to right: the first error wins) -/
+def renderFormat (esc : Text → Text) (pr : Char → Bool) (args : List Val) (kw : List (Text × Val)) :
     Option (Option Nat) → List Item → Except Err Text
   | _, [] => .ok []
-  | st, .lit t :: rest => do
-    let r ← renderFormat esc args st rest
-    pure (t ++ r)
-  | st, .hole idx spec :: rest =>
-    match selectArg idx st with
+  | st, .lit t :: rest =>
+    match renderFormat esc pr args kw st rest with
+    | .ok r => .ok (t ++ r)
     | .error e => .error e
-    | .ok (i, st') =>
-      match args[i]? with
-      | none => .error .index
-      | some v => do
-        let r ← renderFormat esc args st' rest
-        pure (esc (fmtStr v spec) ++ r)
+  | st, .hole h :: rest =>
+    match renderHole esc pr args kw st h with
+    | .error e => .error e
+    | .ok (t, st') =>
+      match renderFormat esc pr args kw st' rest with
+      | .ok r => .ok (t ++ r)
+      | .error e => .error e
 
-/-- `FORMATTER.vformat(template, args, {})` with `format_field = esc ∘ format` -/
-def vformat (esc : Text → Text) (tmpl : Text) (args : List Text) : Option (Except Err Text) :=
+/-- `FORMATTER.vformat(template, args, kwargs)` with `format_field = esc ∘ format` -/
+def vformat (esc : Text → Text) (pr : Char → Bool) (tmpl : Text) (args : List Val)
+    (kw : List (Text × Val)) : Option (Except Err Text) :=
   match scanFormat tmpl with
   | none => none
   | some (.error e) => some (.error e)
-  | some (.ok items) => some (renderFormat esc args none items)
+  | some (.ok items) => some (renderFormat esc pr args kw none items)
 
 /-- `%`-template items: `%%` | `%[-][width][.prec]s` | literal -/
 structure PSpec where
@@ -597,19 +780,20 @@ def renderPercent : List Text → List PItem → Except Err Text
     let r ← renderPercent args rest
     pure (pfmtStr v s ++ r)
 
-/-- `self.value % tuple(esc(i) for i in value)` -/
-def pformat (esc : Text → Text) (tmpl : Text) (args : List Text) : Option (Except Err Text) :=
+/-- `self.value % tuple(esc(i) for i in value)`; both escape functions start with `str(i)` -/
+def pformat (esc : Text → Text) (tmpl : Text) (args : List Val) : Option (Except Err Text) :=
   match scanPercent tmpl with
   | none => none
   | some (.error e) => some (.error e)
-  | some (.ok items) => some (renderPercent (args.map esc) items)
+  | some (.ok items) => some (renderPercent (args.map fun v => esc v.s) items)
 
-/-- `ANSI(tmpl).format(*args).__pt_formatted_text__()` -/
-def ansiFormat (tb : Tables) (tmpl : Text) (args : List Text) : Option (Except Err Frags) :=
-  (vformat ansiEscape tmpl args).map fun r => r.map (ansi tb)
+/-- `ANSI(tmpl).format(*args, **kw).__pt_formatted_text__()` -/
+def ansiFormat (tb : Tables) (pr : Char → Bool) (tmpl : Text) (args : List Val)
+    (kw : List (Text × Val)) : Option (Except Err Frags) :=
+  (vformat ansiEscape pr tmpl args kw).map fun r => r.map (ansi tb)
 
 /-- `(ANSI(tmpl) % args).__pt_formatted_text__()` -/
-def ansiMod (tb : Tables) (tmpl : Text) (args : List Text) : Option (Except Err Frags) :=
+def ansiMod (tb : Tables) (tmpl : Text) (args : List Val) : Option (Except Err Frags) :=
   (pformat ansiEscape tmpl args).map fun r => r.map (ansi tb)
 
 end Ptk.C18
